@@ -1,5 +1,5 @@
 // C15, binary type traits and binary concepts: every etl facility with a std namesake x all
-// ordered pairs of a sub-zoo (20 x 20 in the quick zoo, 44 x 44 in the full one), both
+// ordered pairs of a sub-zoo (21 x 21 in the quick zoo, 45 x 45 in the full one), both
 // spellings, as constexpr tables (engine E4).
 //
 // MC_PART selects the group compiled into this binary:
@@ -19,7 +19,7 @@ namespace c15 {
 // clang-format off
 using bin_core = tl<void, int, int const, long, double, bool, int*, int const*, void*, std::nullptr_t,
                     int&, int const&, int&&, zoo::Base, zoo::Derived, zoo::Derived*, zoo::Base*,
-                    zoo::ToInt, zoo::FromInt, zoo::Unscoped>;
+                    zoo::ToInt, zoo::ToIntThrow, zoo::FromInt, zoo::Unscoped>;
 using bin_ext  = tl<char, float, unsigned int, zoo::Scoped, int[3], int (&)[3], void(), void (*)(), void (&)(),
                     zoo::NonTrivial, zoo::MoveOnly, zoo::TrivDefUserCopy, zoo::ThrowCopy, zoo::ExplicitFromInt,
                     zoo::ExplicitToBool, zoo::Abstract, zoo::Derived&, zoo::Base const&, zoo::Agg&&,
